@@ -123,7 +123,10 @@ def x3(ctx):
         return
     LEN = lambda t: _subst(t, {})
     updates = [e for e in res.log if e["kind"] == "call" and not e["chain"] and e["callee"].endswith("Checksumer::update")]
-    yield Ob(key_of("C19-X3", b.path, "has-updates"), len(updates) >= 1, "%d update site(s)" % len(updates), b.loc())
+    # `chunks.for_each(|c| hasher.update(c))`: the closure's update, applied to every chunk in order, stands at the call site of for_each
+    each = [e for e in res.log if e["kind"] == "call" and len(e["chain"]) == 1 and e.get("foreach") and e["callee"].endswith("Checksumer::update")
+            and e["args"][1] == ("payload", e["foreach"], "Some", 0)]
+    yield Ob(key_of("C19-X3", b.path, "has-updates"), len(updates) + len(each) >= 1, "%d update site(s)" % (len(updates) + len(each)), b.loc())
     # normalise: the length of data is one term wherever it is read
     def N(t):
         def f(x):
@@ -306,7 +309,26 @@ def x3(ctx):
                             problems.append(("loop-entry", b.loc(bb), "a chunks() loop over data[%s..] starts at position %s" % (short(inv[2], 30), short(N(pp), 50))))
                     pin = ("chunks-pos", inv[1])
         pos = pin
-        for e in sorted([u for u in updates if u["bb"] == bb], key=lambda u: u["seq"]):
+        here = [u for u in updates if u["bb"] == bb] + [u for u in each if u["chain"][0][1] == bb]
+        for e in sorted(here, key=lambda u: u["seq"]):
+            if e.get("foreach"):
+                cn = e["foreach"]
+                sbx = slice_bounds(cn[1], D, TOTAL)
+                okx = sbx is not None
+                if okx and len(cn) > 3 and cn[3] == "exact":
+                    ln = sub(N(sbx[1]), N(sbx[0]))
+                    okx = tag(ln) == "mul" and (term_eq(ln[1], cn[2]) or term_eq(ln[2], cn[2]))
+                    if isinstance(ln, Lin) and len(ln.m) == 1 and ln.c == 0:
+                        (a_, c_), = ln.m.items()
+                        okx = c_ == 1 and tag(a_) == "mul" and (term_eq(a_[1], cn[2]) or term_eq(a_[2], cn[2]))
+                if not okx:
+                    problems.append(("update-arg", ev_loc(ctx, e), "for_each over chunks of something that is not a whole number of chunks of a sub-slice of data: %s" % short(cn[1], 80)))
+                    continue
+                fs = set(implied_facts(ctx.guards_of(ev, e)))
+                if not eq(fs, N(sbx[0]), pos):
+                    problems.append(("gap-or-overlap", ev_loc(ctx, e), "the chunk loop starts at %s but %s bytes have been fed so far" % (short(N(sbx[0]), 60), short(N(pos), 60))))
+                pos = N(sbx[1])
+                continue
             h_in = [h for h in heads if bb in loops[h]]
             if h_in and INV.get(h_in[0]) and INV[h_in[0]][0] == "chunks":
                 continue   # covered by the contract of slice::chunks
